@@ -46,7 +46,7 @@ theorem lg_raiseSig (st : St) (s : Int) : LogExt st (raiseSig st s) := by
   · split
     · exact LogExt.of_eq rfl
     · split
-      · exact LogExt.of_eq rfl
+      · unfold sigRecord; split <;> first | exact LogExt.of_eq rfl | exact LogExt.refl _
       · split
         · exact LogExt.of_eq rfl
         · exact LogExt.refl st
@@ -636,7 +636,9 @@ theorem lg_pollTimeout (st : St) (t : Option Int) : LogExt st (pollTimeout st t)
   · exact LogExt.refl _
 
 
-theorem lg_deliverPending (st : St) : LogExt st (deliverPending st) := LogExt.of_eq rfl
+theorem lg_deliverPending (st : St) : LogExt st (deliverPending st) := by
+  unfold deliverPending
+  split <;> exact LogExt.of_eq rfl
 
 
 theorem lg_ppoll (st : St) (t : Option Int) : LogExt st (ppoll st t).1 := by
